@@ -116,7 +116,7 @@ def run(P, R):
     ok = must_call(u.node, lambda c: call_text(c) == 'self._check_instances', exits=ex)
     sc = calls_named(u, 'self.state_modes.evaluate_stability')
     cc = calls_named(u, 'self._check_consistence')
-    ok = ok and sc and cc and sc[0].lineno < cc[0].lineno
+    ok = ok and sc and cc and (sc[0].lineno, sc[0].col_offset) < (cc[0].lineno, cc[0].col_offset)
     R.check(r3, bool(ok), 'base next(): instances checked, stability evaluated, then consistence',
             'hook|_SupvisorsBaseState.next', u.loc(), 'the base next() does not check instances / evaluate stability '
             'before the consistence checks on every path')
